@@ -47,6 +47,22 @@ func (r *Result) rule(id, doc string, min int) {
 	r.MinCount[id] = min
 }
 
+// share copies into r the obligations that another property's check
+// discharged under the given rules (the two properties rest on the same
+// facts); keep, when set, selects among them.
+func (r *Result) share(from *Result, rules map[string]string, keep func(Obligation) bool) {
+	for id, doc := range rules {
+		if _, known := r.RuleDocs[id]; !known {
+			r.rule(id, doc, 1)
+		}
+	}
+	for _, o := range from.Obls {
+		if _, ok := rules[o.Rule]; ok && (keep == nil || keep(o)) {
+			r.Obls = append(r.Obls, o)
+		}
+	}
+}
+
 func (r *Result) ok(rule, construct string, inspected int, detail string) {
 	r.Obls = append(r.Obls, Obligation{Rule: rule, Construct: construct, OK: true, Inspected: inspected, Detail: detail})
 }
